@@ -7,7 +7,7 @@ from typing import List, Optional, Set
 from .. import tables as T
 from ..alias import engine, is_private
 from ..cfg import Node
-from ..core import AnalysisError, Ob, bind_args, dotted, kw, need, ob, short, src, walk_no_nested
+from ..core import canon_in, AnalysisError, Ob, bind_args, dotted, kw, need, ob, short, src, walk_no_nested
 from ..flow import node_calls, node_defs
 from ..runner import Ctx, rule
 from .exc import usertaint
@@ -122,7 +122,7 @@ def rule_nitb(ctx: Ctx) -> List[Ob]:
                 if not ok and how == "bind" and v is not None and len(n.loops) == 1:
                     from ..flow import Expander
                     ev = Expander(ctx, mm.f).expand(n, v, 4)
-                    ok = src(ev).replace(" ", "") in (f"{nit}+1", f"1+{nit}")
+                    ok = canon_in(ev, f"{nit} + 1")
                 inc_nodes.append(n)
                 obs.append(ob("NITB", "in-loop write of the iteration counter is `+= 1`", mm.f, n.ast, ok,
                               "increment by one per cycle" if ok else "the counter is not advanced by exactly one"))
